@@ -29,16 +29,21 @@ def regenerate(chk):
     js = os.path.join(chk.WORK, "C19", "effects.json")
     os.makedirs(os.path.dirname(out), exist_ok=True)
     os.makedirs(os.path.dirname(js), exist_ok=True)
-    for f in (out, js):
+    tmp = os.path.join(chk.WORK, "C19", "Effects.lean.new")
+    for f in (tmp, js):
         if os.path.exists(f):
             os.remove(f)     # never leave a stale table behind
     b = os.path.join(tool, "bin", "effects")
     r = chk.run(["go", "build", "-o", b, "."], cwd=tool, env=chk.GOENV)
     if r.returncode != 0:
         raise chk.BuildError("cannot build tools/effects: " + (r.stdout + r.stderr)[-1500:])
-    r = chk.run([b, "-repo", chk.REPO, "-out", out, "-json", js], env=chk.GOENV)
-    if r.returncode != 0 or not os.path.exists(out):
+    r = chk.run([b, "-repo", chk.REPO, "-out", tmp, "-json", js], env=chk.GOENV)
+    if r.returncode != 0 or not os.path.exists(tmp):
+        if os.path.exists(out):
+            os.remove(out)
         raise chk.BuildError("effect extraction failed on %s: %s" % (chk.REPO, (r.stdout + r.stderr)[-1500:]))
+    if not os.path.exists(out) or open(out).read() != open(tmp).read():
+        os.replace(tmp, out)     # installed only when the table changed
     recs = json.load(open(js))
     return recs
 
